@@ -1,7 +1,11 @@
 (* C04 — Parameterized SQL agrees with inline SQL; all values travel as parameters.  (clause (a): placeholder count) *)
 Require Import Parser Render Api Shape Count.
 Require Import ParserShape2 RenderCount RenderCountP RenderParamTotal RenderTotal RenderValues Values SameKind RenderShape.
-From Coq Require Import List String Ascii.
+Require PgModel.
+Require Import QuerySem SqlSem SqlFrag SqlFragP.
+Require SqlParse SqlParseP SqlSemProof SqlSemProofP.
+From Coq Require Import ZArith List String Ascii.
+Import ListNotations.
 
 (* (a) on every tree of the parser's output shape whose range fields are columns (rfield_ok; a numeric field term in a closed
    range is known finding K13): the number of ? outside double-quoted identifiers equals the number of parameters.
@@ -32,7 +36,44 @@ Theorem C04_sql_text_independent_of_values : forall (o2 : oracle2) (e e' : expr)
   exists ps', render_param o2 e' = Ret (t, ps', None) /\ Forall2 pk ps ps'.
 Proof. exact same_kind_same_text. Qed.
 
+(* (c) substituting the parameters gives a predicate equivalent to the inline SQL - for every tree of the filterable fragment
+   (Spec/SqlFrag.tr for the inline text, Spec/SqlFragP.trp for the parameterized one: integer and string constants, any depth)
+   and every row. trp e 1 = Some (ts2, a2, ps): ts2 is the token sequence of the parameterized text with its placeholders
+   numbered from 1 (tied per case to the implementation: the scanner model on the numbered text gives ts2, correspondence
+   SqlToksP), ps the parameter list. PostgreSQL's grammar reads a2 from ts2, and a2 with ps bound is true on exactly the rows of
+   the query; the inline expression a1 is too (C03), so the two are equivalent. *)
+Theorem C04_parameterized_sql_selects_the_rows_of_the_query :
+  forall (r : row) (e : Parser.expr) (ts2 : list PgModel.tok) (a2 : PgModel.ast) (ps : list value),
+  trp e 1 = Some (ts2, a2, ps) -> side e = true -> (Z.of_nat (1 + List.length ps) < 10 ^ 30)%Z ->
+  PgModel.pg_parse ts2 = Some a2 /\ ssem r (map prv ps) a2 = qsem r e.
+Proof.
+  intros r e ts2 a2 ps T S B. split; [exact (SqlParseP.trp_parses e 1 ts2 a2 ps T)|exact (SqlSemProofP.trp_sem r e ts2 a2 ps T S B)].
+Qed.
+
+Theorem C04_substituted_parameters_equivalent_to_inline :
+  forall (r : row) (e : Parser.expr) (ts1 ts2 : list PgModel.tok) (a1 a2 : PgModel.ast) (ps : list value),
+  tr e = Some (ts1, a1) -> trp e 1 = Some (ts2, a2, ps) -> side e = true -> (Z.of_nat (1 + List.length ps) < 10 ^ 30)%Z ->
+  ssem r (map prv ps) a2 = ssem r [] a1.
+Proof.
+  intros r e ts1 ts2 a1 a2 ps T1 T2 S B.
+  rewrite (SqlSemProofP.trp_sem r e ts2 a2 ps T2 S B), (SqlSemProof.tr_sem r [] e ts1 a1 T1 S). reflexivity.
+Qed.
+
+(* the premises are met: a range AND NOT a pattern, OR a value list *)
+Definition c04_lit (v : value) : Parser.expr := E v Literal VNil 0%Z 0%Z.
+Definition c04_col (f : string) : value := VExp (c04_lit (VCol f)).
+Definition c04_sample : Parser.expr :=
+  E (VExp (E (VExp (E (c04_col "n") Range (VBound (VExp (c04_lit (VInt 1))) (VExp (c04_lit (VInt 5))) true) 0%Z 0%Z)) And
+             (VExp (E (VExp (E (c04_col "s") Like (VExp (E (VStr "w*") Wild VNil 0%Z 0%Z)) 0%Z 0%Z)) Not VNil 0%Z 0%Z)) 0%Z 0%Z)) Or
+    (VExp (E (c04_col "k") Tables.In (VExp (E (VList [c04_lit (VInt 3); c04_lit (VStr "x y")]) Tables.List VNil 0%Z 0%Z)) 0%Z 0%Z)) 0%Z 0%Z.
+Example C04_premises_are_satisfiable :
+  side c04_sample = true /\ (exists ts a, tr c04_sample = Some (ts, a)) /\
+  exists ts a, trp c04_sample 1 = Some (ts, a, [VInt 1; VInt 5; VStr "w%"; VInt 3; VStr "x y"]).
+Proof. split; [vm_compute; reflexivity|]. split; eexists; eexists; vm_compute; reflexivity. Qed.
+
 Print Assumptions C04_placeholders_match_parameters.
+Print Assumptions C04_parameterized_sql_selects_the_rows_of_the_query.
+Print Assumptions C04_substituted_parameters_equivalent_to_inline.
 Print Assumptions C04_sql_text_independent_of_values.
 Print Assumptions C04_parameters_are_the_values.
 Print Assumptions C04_render_param_returns.
